@@ -45,6 +45,32 @@ def leaf_count(p, nm):
     return cnt, chow
 
 
+def nodes_consumed(p):
+    """every supplied proof node takes part: before get_root returns Ok, the consumption pointer of
+    each node vector is compared with that vector's length (surplus nodes would otherwise be ignored)."""
+    from .c03 import for_loops
+    h = p.fn(BMP + "get_root")
+    pp = set(h.locals_named("proof_pointers"))
+    oks = h.ok_exit_blocks()
+    for L in for_loops(h):
+        if not h.must_cross(oks, cut_blocks=[L["header"]]):
+            continue
+        for cs in cmp_sites(h):
+            if cs["bb"] not in L["body"] or cs["op"] not in ("Ne", "Eq"):
+                continue
+            sa = h.slice_of_operand(cs["a"], at=(cs["bb"], 10**6))
+            sb = h.slice_of_operand(cs["b"], at=(cs["bb"], 10**6))
+            locs = sa["locals"] | sb["locals"]
+            names = {(callee_of(h.term(b)) or {}).get("name") for b in sa["calls"] | sb["calls"]}
+            fields = set(slice_field_bases(sa)) | set(slice_field_bases(sb))
+            if not (pp & locs) or "len" not in names or "nodes" not in fields:
+                continue
+            okc, howc, rel = cmp_reject_relation(h, cs, per_iteration=L)
+            if okc and rel == "Ne":
+                return True, "get_root: pointer != nodes.len() -> Err for every node vector before the root is returned: " + howc
+    return False, "get_root does not check that every node vector of the proof was consumed (surplus proof nodes are ignored)"
+
+
 def r1_rejection(ctx):
     p = ctx.p
     f = p.fn(MT + "verify")
@@ -97,6 +123,8 @@ def r1_rejection(ctx):
                "%s does not validate the indexes with map_indexes(indexes, self.depth)?" % nm, h, mi[1]["sp"]["at"])
         cnt, chow = leaf_count(p, nm)
         ctx.ob("R1", "%s-leaf-count" % nm, cnt, chow, h)
+    nc, nhow = nodes_consumed(p)
+    ctx.ob("R1", "get_root-nodes-consumed", nc, nhow, p.fn(BMP + "get_root"))
     m = p.fn(MAP_INDEXES)
     # range check and duplicate check
     rng, dup = False, False
@@ -130,7 +158,7 @@ def r2_no_panic(ctx):
 
 
 def run(ctx):
-    ctx.rule("R1", "MerkleTree::verify / verify_batch accept only behind the root comparison over values derived from leaf, proof and index; get_root / into_openings validate indexes with map_indexes(..)? and reject a leaf count different from the index count; map_indexes has the range and duplicate checks", 8)
+    ctx.rule("R1", "MerkleTree::verify / verify_batch accept only behind the root comparison over values derived from leaf, proof and index; get_root / into_openings validate indexes with map_indexes(..)? and reject a leaf count different from the index count; get_root checks that every proof node was consumed; map_indexes has the range and duplicate checks", 9)
     ctx.rule("R2", "no undischarged panic / abort site reachable from BatchMerkleProof::{read_from, get_root, into_openings}, verify_batch, get_proof, map_indexes, normalize_indexes (A5)", 30)
     ctx.rule("ENTRY", "entry points resolved", 1)
     ctx.guard("R1", r1_rejection)
